@@ -43,7 +43,9 @@ def parseWords (w : Nat) (s : String) : Option (Array (BitVec w)) :=
 
 /-- `F8x3` → (8, 3) -/
 def parseFTag (s : String) : Option (Nat × Nat) :=
-  match (s.drop 1).toString.splitOn "x" with
+  let body := (s.drop 1).toString
+  let body := if body.startsWith "U" then (body.drop 1).toString else body   -- `FU64x2` = `Bvf<usize,2>`
+  match body.splitOn "x" with
   | [a, b] => match a.toNat?, b.toNat? with
     | some w, some n => some (w, n)
     | _, _ => none
@@ -72,7 +74,9 @@ def parseVec (s : String) : Option Vec :=
 /-- `u8:ff` → (8, 255) -/
 def parseUInt (s : String) : Option (Nat × Nat) :=
   match s.splitOn ":" with
-  | [t, x] => match (t.drop 1).toString.toNat?, parseHex x with
+  | [t, x] =>
+    if t = "us" then (parseHex x).map fun v => (64, v) else     -- `usize`
+    match (t.drop 1).toString.toNat?, parseHex x with
     | some w, some v => if t.startsWith "u" then some (w, v) else none
     | _, _ => none
   | _ => none
@@ -90,6 +94,8 @@ def parseBits (s : String) : Option (List Bool) :=
     let r := (s.drop 2).toString
     if r = "-" then some [] else some (r.toList.map (· == '1'))
   else none
+/-- integer type given by its width (`us` = usize) -/
+def parseWidth (s : String) : Option Nat := if s = "us" then some 64 else s.toNat?
 def parseBool (s : String) : Option Bool := if s = "1" then some true else if s = "0" then some false else none
 
 -- ---- printing -------------------------------------------------------------------------------------
